@@ -479,6 +479,16 @@ def check_fields(facts, chk):
 
 
 def run(facts, chk, tier, only=None):
+    from . import cli_e2e
+    # the subcommand through ska::main() itself (argument parser replaced by a constructed Args value): hand-over of CLI values, width dispatch
+    chk.guard('C09.cli', 'C09.cli:run0', lambda: cli_e2e.check_align(facts, chk, 'C09.cli', tier))
+    chk.guard('C09.cli', 'C09.cli:run1', lambda: cli_e2e.check_map(facts, chk, 'C09.cli', tier, 'Aln'))
+    chk.guard('C09.cli', 'C09.cli:run2', lambda: cli_e2e.check_weed(facts, chk, 'C09.cli', tier))
+    chk.guard('C09.cli', 'C09.cli:run3', lambda: cli_e2e.check_merge_delete(facts, chk, 'C09.cli', tier, 'delete'))
+    chk.guard('C09.cli', 'C09.cli:run4', lambda: cli_e2e.check_merge_delete(facts, chk, 'C09.cli', tier, 'merge'))
+    chk.guard('C09.cli', 'C09.cli:run5', lambda: cli_e2e.check_nk_distance(facts, chk, 'C09.cli', tier, 'nk'))
+    chk.guard('C09.cli', 'C09.cli:run6', lambda: cli_e2e.check_nk_distance(facts, chk, 'C09.cli', tier, 'distance'))
+    chk.guard('C09.cli', 'C09.cli:run7', lambda: cli_e2e.check_build(facts, chk, 'C09.cli', 'thorough'))
     chk.guard('C09.fields', 'C09.fields:run', lambda: check_fields(facts, chk))
     chk.guard('C09.width', 'C09.width:run', lambda: check_width(facts, chk))
     chk.guard('C09.arms', 'C09.arms:run', lambda: check_arms(facts, chk))
